@@ -27,14 +27,15 @@ def thresholds():
             "ThSS": round(100 * pb.DISULFIDE_DISTANCE), "ThFF": round(100 * pb.FLUORIDE_DISTANCE)}
 
 
-def mk_atoms(pos, el, order, shift=(0, 0, 0)):
+def mk_atoms(pos, el, order, shift=(0, 0, 0), same_serial=False):
     """pos: {id: (x,y,z) centi-A}; returns list of real Atom objects in 'order' and id map."""
     from propka.atom import Atom
     atoms = []
     for i in order:
         x, y, z = (10 * (pos[i][j] + shift[j]) for j in range(3))
         name = {"C": "C1", "H": "H1", "S": "S1", "F": "F1", "N": "N1", "O": "O1", "SE": "SE1"}[el[i]]
-        a = Atom(pdbio.atom_line("HETATM", serial=i, name=name, resn="LIG", chain="A", num=1, x=x, y=y, z=z, elem=el[i]))
+        a = Atom(pdbio.atom_line("HETATM", serial=(17 if same_serial else i), name=name, resn="LIG", chain="A", num=1, x=x, y=y, z=z,
+                                 elem=el[i]))
         a.pkv_id = i
         atoms.append(a)
     return atoms
@@ -121,8 +122,9 @@ def run(ctx):
         d = direction_class(pos)
         dirs.add(d)
         near = any(abs(v) <= 252 for v in (pos[2][j] - pos[1][j] for j in range(3)))
-        for sh in (tie_shifts if c.get("ties") else shifts):
-            atoms = mk_atoms(pos, el, c["order"], sh)
+        for si_, sh in enumerate(tie_shifts if c.get("ties") else shifts):
+            # serial numbers are not unique in real files (they restart per chain or model): the last shift uses equal ones
+            atoms = mk_atoms(pos, el, c["order"], sh, same_serial=(si_ == 2))
             ctx.count()
             try:
                 bm.find_bonds_for_atoms_using_boxes(atoms)
@@ -272,7 +274,9 @@ def replay(ctx, path):
     if "pos" in p:
         pos = {int(i): tuple(v) for i, v in p["pos"].items()}
         el = {int(i): v for i, v in p["el"].items()}
-        atoms = mk_atoms(pos, el, p["order"], tuple(p["shift"]))
-        BondMaker().find_bonds_for_atoms_using_boxes(atoms)
-        print("bonds:", sorted(map(sorted, real_bonds(atoms)[0])), "bridged:", [a.pkv_id for a in atoms if a.cysteine_bridge])
+        for same in (False, True):
+            atoms = mk_atoms(pos, el, p["order"], tuple(p["shift"]), same_serial=same)
+            BondMaker().find_bonds_for_atoms_using_boxes(atoms)
+            print("equal serials:" if same else "distinct serials:", "bonds:", sorted(map(sorted, real_bonds(atoms)[0])),
+                  "bridged:", [a.pkv_id for a in atoms if a.cysteine_bridge])
     print(case["what"])
